@@ -296,7 +296,7 @@ Lemma run_op_spec chk g r pats tab stab o :
   let '(stab', b) := spec_op g pats stab o in
   Forall2 (rel1 g) tab' stab' /\ m = b.
 Proof.
-  intros Hr Htab Hg. destruct o as [v key h opts|key p|key k|key]; cbn [run_op spec_op].
+  intros Hr Htab Hg. destruct o as [v key h opts|key p|key k|key|e key adj mw]; cbn [run_op spec_op].
   - (* create *)
     unfold create. set (p := nth key pats []).
     pose proof (new_route_spec chk r p h opts) as Hn.
@@ -360,6 +360,13 @@ Proof.
     split; auto. pose proof (lookup_rel g _ _ key Htab) as Hl.
     destruct (lookup key tab) as [rt|], (slookup key stab) as [srt|]; try contradiction; auto.
     destruct Hl as (_ & Hsn & _). cbn [snd] in Hsn. rewrite Hsn. reflexivity.
+  - (* Lookup + Handle / HandleMiddleware *)
+    split; auto. pose proof (lookup_rel g _ _ key Htab) as Hl.
+    destruct (lookup key tab) as [rt|], (slookup key stab) as [srt|]; try contradiction; auto.
+    destruct Hl as (_ & Hsn & _ & _ & Hc & _ & Hh). cbn [snd] in *.
+    assert (Hpat : rt_pattern rt = sr_pattern srt).
+    { unfold snapshot_of in Hsn. destruct (hostname rt), (path rt); try discriminate. inversion Hsn. reflexivity. }
+    rewrite Hh. unfold view_of, clone, clone_with, client_ip. cbn [cx_route option_map]. rewrite Hc, Hpat. reflexivity.
 Qed.
 
 Lemma run_ops_spec chk g r pats ops : forall tab stab,
@@ -504,6 +511,15 @@ Proof.
   rewrite Hh. destruct k; reflexivity.
 Qed.
 
+(* the secondary entry points: a route found by Lookup (directly or slash-adjusted) and run on the returned context *)
+Theorem lookup_selection_l chk r pats tab e key rt adj mw :
+  lookup key tab = Some rt -> rt_handler rt = true ->
+  let v := (res_cip (rt_clientip rt), Some (rt_pattern rt)) in
+  run_op chk r pats tab (OLookup e key adj mw) = (tab, ObsLookup adj v v v (Some v)).
+Proof.
+  intros Hl Hh v. cbn [run_op]. rewrite Hl, Hh. unfold v, view_of, clone, clone_with, client_ip, res_cip. reflexivity.
+Qed.
+
 (* copies of a context show what the context shows *)
 Theorem clone_preserves_view_l r c : view_of r (clone c) = view_of r c /\ view_of r (clone_with c) = view_of r c.
 Proof. split; reflexivity. Qed.
@@ -536,13 +552,14 @@ Lemma spec_ops_no_panic g pats ops : forall t, ~ In ObsPanic (spec_ops g pats t 
 Proof.
   induction ops as [|o ops IH]; intros t; cbn [spec_ops]; [intros []|].
   destruct (spec_op g pats t o) as [t' b] eqn:Ho. intros [Hb|Hin]; [|eapply IH; eassumption].
-  subst b. destruct o as [v key h opts|key p|key k|key]; cbn [spec_op] in Ho.
+  subst b. destruct o as [v key h opts|key p|key k|key|e key adj mw]; cbn [spec_op] in Ho.
   - destruct (negb h); [inversion Ho|].
     destruct (negb (valid_pattern _)); [inversion Ho|]. destruct (negb (forallb r_valid opts)); [inversion Ho|].
     destruct v, (slookup key t); inversion Ho.
   - destruct (slookup key t); inversion Ho.
   - destruct (slookup key t); inversion Ho.
   - inversion Ho.
+  - destruct (slookup key t); inversion Ho.
 Qed.
 
 Theorem never_panic_partial_l chk g pats ops :
